@@ -81,10 +81,24 @@ impl Prop for C13Prop {
             shapes: Some(vec![Shape::Path, Shape::Cycle, Shape::Cycle, Shape::Star, Shape::Cliques, Shape::Cliques, Shape::Bipartite, Shape::Gnp, Shape::Union, Shape::Grid, Shape::Tree, Shape::NestedScc]),
             lifecycle_pct: 25,
             keyings: 1,
+            boundary_per_mille: 0,
         }
         .gen("C13", seed, idx);
+        if idx % 40 == 39 {
+            let mut wr = Rng::new(seed, "workload.ring");
+            let (d, m, l) = crate::gen::kind_from(idx as usize / 40 % 8);
+            let regime = *wr.pick(&[WeightRegime::AllNan, WeightRegime::SmallInt]);
+            let (specs, ops) = crate::gen::gen_graph(&mut wr, &crate::gen::GraphOpts { directed: d, multi: m, self_loops: l, n_min: 60, n_max: 120, regime, shape: Some(Shape::RingOfCliques), sprinkle: false });
+            case.specs = specs;
+            case.ops = ops;
+        }
         let mut rng = Rng::new(seed, "c13.args");
-        case.params.put("louvain_seed", J::U(rng.next_u64() % 1000));
+        case.params.put("louvain_seed", J::U(match rng.below(10) {
+            0 => u64::MAX,
+            1 => u64::MAX - 1,
+            2 => 0,
+            _ => rng.next_u64() % 1000,
+        }));
         case.params.put("resolution", J::F(*rng.pick(&[1.0, 1.0, 0.5, 2.0, 0.25, 1.5, 0.1])));
         case.params.put("threshold", J::F(*rng.pick(&[0.0, 1e-7, 1e-7, 1e-3, 0.1, 1.0])));
         case.params.put("weighted", J::Bool(rng.chance(1, 2)));
@@ -92,7 +106,7 @@ impl Prop for C13Prop {
             Tier::Quick => 4,
             Tier::Thorough => 8,
         };
-        case.envs = gen::keyings(seed, k).into_iter().map(|k| Env { keying: k, pool: 1, sched: 0 }).collect();
+        case.envs = gen::envs(seed, k);
         case
     }
     fn hang_sig(&self, case: &Case, label: &str) -> String {
